@@ -712,6 +712,11 @@ class HealSparseMap(object):
         no_append : `bool`
             If True, no coverage pixels will be appended.
         """
+        # Empty ranges select nothing (and one at the end of the sphere has no coverage pixel).
+        pixel_ranges = pixel_ranges[pixel_ranges[:, 1] != pixel_ranges[:, 0]]
+        if len(pixel_ranges) == 0:
+            return
+
         # Compute the coverage pixels.
         cov_pix_ranges = np.right_shift(pixel_ranges, self._cov_map.bit_shift)
         # After the bit shift these pixel ranges are inclusive, not exclusive.
